@@ -562,7 +562,7 @@ func (s *HASyncer) performFullSync() error {
 		return fmt.Errorf("decode response: %w", err)
 	}
 
-	// Apply full sync
+	// Apply full sync: the snapshot replaces the standby's table
 	s.receivedMu.Lock()
 	s.receivedSessions = make(map[string]*SessionState)
 	for i := range msg.Sessions {
@@ -575,6 +575,7 @@ func (s *HASyncer) performFullSync() error {
 			)
 		}
 	}
+	s.pruneStaleSessionsLocked()
 	s.receivedMu.Unlock()
 
 	s.mu.Lock()
@@ -723,6 +724,7 @@ func (s *HASyncer) handleSSEData(data []byte) error {
 			s.receivedSessions[session.SessionID] = &session
 			s.store.PutSession(&session)
 		}
+		s.pruneStaleSessionsLocked()
 		s.receivedMu.Unlock()
 	}
 
@@ -731,6 +733,23 @@ func (s *HASyncer) handleSSEData(data []byte) error {
 	s.mu.Unlock()
 
 	return nil
+}
+
+// pruneStaleSessionsLocked removes every session from the store that is not part
+// of the full snapshot just applied (sessions that ended on the active while this
+// standby was not connected). Caller must hold receivedMu.
+func (s *HASyncer) pruneStaleSessionsLocked() {
+	for _, existing := range s.store.GetAllSessions() {
+		if _, ok := s.receivedSessions[existing.SessionID]; ok {
+			continue
+		}
+		if err := s.store.DeleteSession(existing.SessionID); err != nil {
+			s.logger.Warn("Failed to delete stale session",
+				zap.String("session_id", existing.SessionID),
+				zap.Error(err),
+			)
+		}
+	}
 }
 
 // waitReconnect waits with exponential backoff and jitter before reconnecting.
